@@ -297,6 +297,12 @@ static void run_zone(Ctx& c, vt::Rng& r, bool thorough, const std::vector<int64_
   for (int i = 0; i < (fam_small ? 6 : 40); ++i) lim.push_back(r.range(-(int64_t(1) << 35), int64_t(1) << 35));
   std::vector<civil_second> climit;
   for (int d = 0; d <= 2; ++d) { climit.push_back(civil_second::min() + d); climit.push_back(civil_second::max() - d); }
+  // civil seconds just beyond what max() / min() display: a gap or an overlap may straddle the end of the range
+  {
+    const int ds[] = {1, 2, 59, 60, 600, 1799, 1800, 1801, 3599, 3600, 3601, 5400, 7199, 7200, 7201, 14400, 86399, 86400, 90000};
+    civil_second cmax = convert(tp(kMax), c.tz), cmin = convert(tp(kMin), c.tz);
+    for (int d : ds) { climit.push_back(cmax + d); climit.push_back(cmin - d); climit.push_back(cmax - d); climit.push_back(cmin + d); }
+  }
   for (int i = 0; i < 12; ++i) {
     int64_t y = (i & 1) ? kMax - (int64_t)r.below(3) : kMin + (int64_t)r.below(3);
     climit.push_back(civil_second(y, (int)r.range(1, 12), (int)r.range(1, 28), (int)r.range(0, 23), (int)r.range(0, 59), (int)r.range(0, 59)));
@@ -321,6 +327,7 @@ static void run_zone(Ctx& c, vt::Rng& r, bool thorough, const std::vector<int64_
   if (fam_make) {
     for (const civil_second& cs : civ) ev_make(c, cs);
     for (size_t i = 0; i < inst.size(); i += 3) ev_make(c, convert(tp(inst[i]), c.tz));
+    for (const civil_second& cs : climit) ev_make(c, cs);
   }
   if (fam_rt) {
     for (int64_t t : inst)
